@@ -337,12 +337,17 @@ fn run_miri(rep: &mut Rep) {
 /// unoptimised build least of all, where no tail call is ever eliminated (profile `dev`, opt-level 0). A stack overflow kills
 /// the worker process; the driver names the case.
 fn deep_reads(rep: &mut Rep) {
-    let sizes: &[usize] = if rep.quick() { &[1500, 20_000, 300_000] } else { &[1500, 20_000, 300_000, 2_000_000] };
+    // (2 097 152 is the first remaining length that needs four bytes)
+    let sizes: &[usize] = if rep.quick() { &[1500, 20_000, 300_000, 2_100_000] } else { &[1500, 20_000, 300_000, 2_097_000, 2_100_000, 9_000_000] };
     rep.note(&format!("deep reads: one CONNACK / PUBLISH of {:?} bytes delivered in 1- and 2-byte reads that are all ready at once, in each phase", sizes));
     let mut idx = 60_000_000u64;
     for phase in PHASES {
         for &size in sizes {
-            for cap in [1usize, 2] {
+            for cap in [1usize, 2, 4096, usize::MAX] {
+                // packets of megabytes arrive byte by byte in the thorough tier only
+                if cap <= 2 && size > 1_000_000 && rep.quick() {
+                    continue;
+                }
                 let id = format!("deep:{phase:?}:{size}:{cap}");
                 idx += 1;
                 if !rep.take(idx, &id) {
@@ -368,6 +373,9 @@ fn deep_reads(rep: &mut Rep) {
                 su.sim.settle();
                 rep.add("evaluations", 1);
                 rep.add("deep_read_cases", 1);
+                if size >= 2_097_152 {
+                    rep.add("packets_with_a_four_byte_remaining_length", 1);
+                }
                 rep.max("max_transport_calls_in_one_poll", su.sim.max_io_calls_in_poll as i64);
                 rep.distinct(&("deep", phase, size, cap));
                 for p in su.sim.panics.clone() {
